@@ -370,6 +370,29 @@ func lcRun(t *testing.T, ops []string, o *Out) {
 								return n, at, nil
 							}))
 					})
+				case "busybind":
+					// two remote streams are bound while the loop is kept busy inside a slow RTCP writer: the request
+					// made for the second one must not be lost (it is served as soon as the writer returns)
+					g := make(chan struct{})
+					s.mu.Lock()
+					s.rtcpGate = g
+					s.mu.Unlock()
+					for _, k := range []string{"a", "b"} {
+						ssrc := uint32(atoi(a[k]))
+						s.call(o, func() {
+							s.readers[ssrc] = s.ic.BindRemoteStream(lcInfo(ssrc), interceptor.RTPReaderFunc(
+								func(b []byte, at interceptor.Attributes) (int, interceptor.Attributes, error) {
+									return 0, at, io.EOF
+								}))
+						})
+						synctest.Wait()
+					}
+					s.mu.Lock()
+					s.rtcpGate = nil
+					s.mu.Unlock()
+					close(g)
+					synctest.Wait()
+					s.flush(o, "busy")
 				case "ul":
 					ssrc := uint32(atoi(a["ssrc"]))
 					s.call(o, func() { s.ic.UnbindLocalStream(lcInfo(ssrc)) })
@@ -599,7 +622,7 @@ func init() {
 			if r.Chance(1, 4) {
 				ops[0] += fmt.Sprintf(" failat=%d,%d", r.Range(1, 4), r.Range(5, 9))
 			}
-			templ := idx / len(kinds) % 8
+			templ := idx / len(kinds) % 9
 			seq := 1
 			traffic := func(ssrcs []int) {
 				for _, s := range ssrcs {
@@ -651,6 +674,22 @@ func init() {
 					ops = append(ops, "close")
 				}
 				ops = append(ops, "adv ms=25")
+			case 8: // busy
+				// requests made while the loop is busy in a slow writer
+				if r.Chance(3, 4) {
+					ops = append(ops, "bindw")
+				}
+				if r.Chance(1, 3) {
+					ops = append(ops, "br ssrc=3")
+				}
+				if r.Chance(1, 4) {
+					ops = append(ops, fmt.Sprintf("adv ms=%d", r.Pick(3, 12, 25)))
+				}
+				ops = append(ops, fmt.Sprintf("busybind a=%d b=%d", r.Pick(1, 2), r.Pick(2, 4, 5)))
+				if r.Chance(1, 2) {
+					ops = append(ops, "busybind a=6 b=7")
+				}
+				ops = append(ops, fmt.Sprintf("adv ms=%d", r.Pick(3, 12, 25)))
 			default: // random
 				alphabet := []string{"bindw", "bindr", "bl ssrc=1", "br ssrc=1", "bl ssrc=2", "br ssrc=2", "bl ssrc=3", "br ssrc=3",
 					"ul ssrc=1", "ur ssrc=1", "ul ssrc=2", "ur ssrc=2", "w ssrc=1 seq=%d", "w ssrc=2 seq=%d", "r ssrc=1", "r ssrc=2", "r ssrc=3",
